@@ -57,6 +57,7 @@ let () =
       let lswap_pending = ref false in   (* C08: a LEVELDOWN op since the last snapshot *)
       let prev_v2l : int array ref = ref [||] in
       let last_gc = ref (-1) in
+      let tm_ops : (string list * string) list ref = ref [] in   (* C05 (terminals): ops since the last snapshot *)
       let init_inner = ref (-1) in
       let digest = Buffer.create 256 in
       let failed = ref false in
@@ -600,6 +601,22 @@ let () =
             | Some m -> fail step "C09" "prop" m
             | None -> ())
          | _ -> ());
+        (* C05 (terminals): replay of the extracted terminal-manager model (ocaml/tmgr.ml, coq/Mgr/Terminals.v) *)
+        if (kname = "mtbdd" || kname = "mtbddf") && List.mem "C05" !props then (
+          let tcap = param_int c "tcap" 4096 and gcall = (param c "gcall" = Some "1") in
+          check "C05"; stat "c05t_inv" 1;
+          (match Tmgr.check_inv ~tcap ps with Some m -> fail step "C05" "corr" m | None -> ());
+          (match !tm_ops, !prev_ps with
+           | [ ([ "GC" ], r) ], Some pp when not (starts_with r "err") ->
+             stat "c05t_gc_replayed" 1;
+             (match Tmgr.check_gc ~tcap pp ps with Some (k, m) -> fail step "C05" k m | None -> ())
+           | [ ([ "CONSTN"; dst; v ], r) ], Some pp when (not (starts_with r "err")) || starts_with r "err oom" ->
+             stat "c05t_get_replayed" 1;
+             (match Tmgr.check_get ~tcap ~kname ~gcall ~oom:(starts_with r "err oom") pp ps (slot_of dst) v with
+              | Some (k, m) -> fail step "C05" k m
+              | None -> ())
+           | _ -> ()));
+        tm_ops := [];
         since := []; prev_ps := Some ps;
         resolve_pending step ps
       in
@@ -614,6 +631,7 @@ let () =
             let ops, res = split_arrow l in
             let toks = split_ws ops in
             stat ("op_" ^ List.hd toks) 1;
+            if toks <> [ "SNAP" ] then tm_ops := (toks, res) :: !tm_ops;
             if starts_with res "err skip" || starts_with res "err unsupported" then stat "skipped_ops" 1
             else if starts_with res "err oom" then (
               stat "oom" 1;
@@ -658,6 +676,18 @@ let () =
               | [ "DROPALL" ] -> Hashtbl.reset tts; Hashtbl.reset fams; dropall_gc := true
               | [ "GC" ] -> gc_pending := true
               | [ "SESSION"; _ ] -> ()
+              | [ "TFILL" ] ->
+                (* terminal capacity probe (MTBDD): with every created constant alive, get_edge may fail only
+                   when all terminal slots are in use (C05_term_get_oom_iff) *)
+                check "C05";
+                let kv = List.filter_map (fun t -> match String.split_on_char '=' t with [ k; v ] -> Some (k, int_of_string v) | _ -> None) (split_ws res) in
+                let tcap = param_int c "tcap" 4096 in
+                (match List.assoc_opt "terms_at_end" kv, List.assoc_opt "oom" kv with
+                 | Some k, Some 1 when k <> tcap ->
+                   fail i "C05" "prop" (Printf.sprintf "terminal capacity probe: out of memory with %d stored terminals in a manager with %d terminal slots" k tcap)
+                 | Some k, Some 0 ->
+                   fail i "C05" "prop" (Printf.sprintf "terminal capacity probe: %d terminals stored without OutOfMemory in a manager with %d terminal slots" k tcap)
+                 | _ -> ())
               | [ "FILL" ] | [ "BIGFILL" ] ->
                 (* capacity probe: with every created node alive the store must be full at the first OOM *)
                 check "C05";
